@@ -139,6 +139,11 @@ def frame_check(ctx, spec, k, T, K, tl=(), where="generated", cond_max=1e8, inpl
             rels = [abs(x.rel_diff) for x in list(ra.iteration_results) + list(rt.iteration_results) if getattr(x, "rel_diff", None) is not None]
             # also a close call: a relative change below 1e-9 (chi2 moving by a few ulps: whether it "increased" is decided by rounding)
             close_call = any((not math.isfinite(x)) or (0.25e-4 < x < 4e-4) or x < 1e-9 for x in rels)
+            # ... or a chi2 that has reached its rounding floor in either frame (coordinates of size |T| + scene carry an absolute rounding of
+            # eps (|T| + scene) into every error component): below that floor the sequence is noise and so is the stopping point
+            floor = sum(float(np.abs(np.asarray(e.information, dtype=float)).sum()) for e in ga._edges) * (64 * R.EPS * (tmagT + scene + 1.0)) ** 2
+            chis = [float(x.chi2) for x in list(ra.iteration_results) + list(rt.iteration_results) if getattr(x, "chi2", None) is not None]
+            close_call = close_call or any((not math.isfinite(c)) or c <= 100.0 * floor for c in chis)
             if close_call:
                 ctx.count("default_arguments_run_not_compared:relative_decrease_close_to_tol")
             else:
